@@ -592,7 +592,7 @@ func (c container) coq(netname string) string {
 	if c.k8s {
 		k = fmt.Sprintf("(Some (%s, %s))", coqStr(c.ns), coqStr(c.pod))
 	}
-	return fmt.Sprintf("{| ct_net := %s; ct_cid := %s; ct_k8s := %s |}", coqStr(netname), coqStr(c.cid), k)
+	return fmt.Sprintf("(Build_container %s %s %s)", coqStr(netname), coqStr(c.cid), k)
 }
 
 type request struct {
@@ -899,7 +899,7 @@ func runCase(r *rng, idx int, tmp string, enc *json.Encoder, scripted int) {
 				}
 				return "(Some " + coqAddrs(*p) + ")"
 			}
-			callsCoq = append(callsCoq, fmt.Sprintf("{| k_call := %s; k_held := %v; k_argsok := %v; k_out := {| o_err := %s; o_r4 := %s; o_r6 := %s; o_add := %s; o_del := %s |} |}",
+			callsCoq = append(callsCoq, fmt.Sprintf("(Build_callrec %s %v %v (Build_outcome %s %s %s %s %s))",
 				cr.coqCall, cr.held, cr.argsok, cr.errk, opt(cr.r4), opt(cr.r6), coqPairs(cr.added), coqPairs(cr.removed)))
 			callsText = append(callsText, fmt.Sprintf("%s[%s]->%s +%s -%s", cr.text, cr.fault, cr.errk, strPairs(cr.added), strPairs(cr.removed)))
 			if cr.fault == "none" && strings.HasPrefix(cr.text, "ReleaseIPs") {
@@ -918,7 +918,7 @@ func runCase(r *rng, idx int, tmp string, enc *json.Encoder, scripted int) {
 		} else {
 			opCoq = fmt.Sprintf("(OpDel %s)", c.coq(netname))
 		}
-		steps = append(steps, fmt.Sprintf("{| s_op := %s; s_calls := [%s]; s_res := %s; s_marker := %v; s_store := %s |}",
+		steps = append(steps, fmt.Sprintf("(Build_step %s [%s] %s %v %s)",
 			opCoq, strings.Join(callsCoq, "; "), res, markerPresent(), coqPairs(after)))
 		kind := "DEL"
 		if isAdd {
@@ -968,7 +968,7 @@ func runCase(r *rng, idx int, tmp string, enc *json.Encoder, scripted int) {
 		tags = append(tags, t)
 	}
 	sort.Strings(tags)
-	coq := fmt.Sprintf("{| c_init := %s; c_marker := %v; c_steps := [%s] |}", coqPairs(init), marker, strings.Join(steps, ";\n "))
+	coq := fmt.Sprintf("(Build_case %s %v [%s])", coqPairs(init), marker, strings.Join(steps, ";\n "))
 	_ = enc.Encode(line{Coq: coq, NT: okDelAfterAlloc && (w.faults > 0 || rollback || w.tags["natural-short-family"]),
 		Key:    fmt.Sprintf("%s|%v|%s", coqPairs(init), marker, strings.Join(keyParts, ";")),
 		Sample: map[string]any{"case": idx, "net": netname, "init": strPairs(init), "marker": marker, "steps": sample}, Tags: tags})
